@@ -4,6 +4,7 @@ import (
 	"fmt"
 	"go/token"
 	"go/types"
+	"sort"
 	"strings"
 
 	"golang.org/x/tools/go/ssa"
@@ -132,6 +133,10 @@ func C05(c *Ctx) {
 			}
 		}
 		_, limOK := isFieldLoad(limitCond.Y, "core", "Control", "Limit")
+		if limOK {
+			bad := c05LimitProvenance(c, walk, limitCond.Y)
+			c.R.Check(len(bad) == 0, "C05-R1", "Walk: the limit is the caller's Control.Limit (DefaultControl's only for a nil Control)", c.pos(limitCond), "every value the bound can take is the Limit of the Control parameter, or of DefaultControl where the parameter is nil", strings.Join(bad, "; "))
+		}
 		exitOK := len(L.Header.Succs) == 2 && L.Blocks[L.Header.Succs[0]] && !L.Blocks[L.Header.Succs[1]]
 		domOK := flow.EdgeDominates(L.Header, 0, call.Block())
 		c.R.Check(okInit && okStep, "C05-R1", "Walk: induction variable", c.pos(ind), "starts at a constant; every back edge carries i+1", "the step counter is not advanced by exactly +1 per iteration (or has another definition)")
@@ -400,4 +405,157 @@ func derivesFromCall(v ssa.Value, call *ssa.Call) bool {
 		}
 	}
 	return false
+}
+
+// c05LimitProvenance: every value the loop bound can take must be the Limit
+// field of Walk's Control parameter (possibly through copies of that Control),
+// or the Limit of the package's DefaultControl read where the parameter is nil.
+// Returns descriptions of other sources.
+func c05LimitProvenance(c *Ctx, walk *ssa.Function, limit ssa.Value) []string {
+	scope := pkgClosure(walk)
+	var ctlParam *ssa.Parameter
+	for _, p := range walk.Params {
+		if pt, ok := p.Type().(*types.Pointer); ok {
+			if n, ok := pt.Elem().(*types.Named); ok && n.Obj().Name() == "Control" && n.Obj().Pkg() != nil && n.Obj().Pkg().Path() == prog.Abs("core") {
+				ctlParam = p
+			}
+		}
+	}
+	if ctlParam == nil {
+		return []string{"Walk has no *Control parameter"}
+	}
+	fromParam := func(v ssa.Value) bool {
+		ds := deepDefs(v, scope)
+		if len(ds) == 0 {
+			return false
+		}
+		for _, d := range ds {
+			if d != ssa.Value(ctlParam) {
+				return false
+			}
+		}
+		return true
+	}
+	// paramNilAt: some value that can only be the Control parameter is provably nil at b
+	paramNilAt := func(b *ssa.BasicBlock) bool {
+		for _, f := range flow.FactsAt(b) {
+			bo, ok := f.Cond.(*ssa.BinOp)
+			if !ok {
+				continue
+			}
+			var v ssa.Value
+			switch {
+			case ssau.IsNilConst(bo.Y):
+				v = bo.X
+			case ssau.IsNilConst(bo.X):
+				v = bo.Y
+			default:
+				continue
+			}
+			if ((bo.Op == token.EQL && f.True) || (bo.Op == token.NEQ && !f.True)) && fromParam(v) {
+				return true
+			}
+		}
+		return false
+	}
+	var bad []string
+	seen := map[ssa.Value]bool{}
+	var limitOf func(v ssa.Value, depth int)
+	var controlBase func(base ssa.Value, at ssa.Instruction, depth int)
+	limitOf = func(v ssa.Value, depth int) {
+		if seen[v] || depth > 8 {
+			return
+		}
+		seen[v] = true
+		for _, d := range deepDefs(v, scope) {
+			base, ok := isFieldLoad(d, "core", "Control", "Limit")
+			if !ok {
+				bad = append(bad, fmt.Sprintf("the bound can be %s (%s), which is not a Control's Limit", d.Name(), c.posv(d)))
+				continue
+			}
+			controlBase(base, d.(ssa.Instruction), depth+1)
+		}
+	}
+	controlBase = func(base ssa.Value, at ssa.Instruction, depth int) {
+		for _, b := range deepDefs(base, scope) {
+			switch x := b.(type) {
+			case *ssa.Parameter:
+				if x != ctlParam {
+					bad = append(bad, fmt.Sprintf("the bound can come from parameter %s of %s", x.Name(), x.Parent().Name()))
+				}
+			case *ssa.UnOp:
+				if g, isG := x.X.(*ssa.Global); isG && x.Op == token.MUL && g.Name() == "DefaultControl" {
+					// only where the caller gave no Control: at the load of the global, or at the read of its Limit
+					if !paramNilAt(x.Block()) && !paramNilAt(at.Block()) && !phiEdgeNil(x, paramNilAt) {
+						bad = append(bad, fmt.Sprintf("DefaultControl's limit can be used (%s) although the caller passed a Control", c.pos(x)))
+					}
+					continue
+				}
+				bad = append(bad, fmt.Sprintf("the bound can come from %s (%s)", x.String(), c.pos(x)))
+			case *ssa.Alloc:
+				// a fresh Control: the values stored into its Limit field
+				n := 0
+				for _, f := range scope {
+					ssau.Instrs(f, func(in ssa.Instruction) {
+						fa, ok := in.(*ssa.FieldAddr)
+						if !ok {
+							return
+						}
+						pt, ok := fa.X.Type().Underlying().(*types.Pointer)
+						if !ok {
+							return
+						}
+						st, ok := pt.Elem().Underlying().(*types.Struct)
+						if !ok || st.Field(fa.Field).Name() != "Limit" || !types.Identical(pt.Elem(), x.Type().Underlying().(*types.Pointer).Elem()) {
+							return
+						}
+						hit := fa.X == ssa.Value(x)
+						for _, d := range deepDefs(fa.X, scope) {
+							if d == ssa.Value(x) {
+								hit = true
+							}
+						}
+						if !hit {
+							return
+						}
+						for _, r2 := range ssau.Referrers(fa) {
+							if sto, ok := r2.(*ssa.Store); ok && sto.Addr == ssa.Value(fa) {
+								n++
+								limitOf(sto.Val, depth+1)
+							}
+						}
+					})
+				}
+				if n == 0 {
+					bad = append(bad, fmt.Sprintf("the bound can be the zero Limit of a fresh Control (%s)", c.pos(x)))
+				}
+			default:
+				bad = append(bad, fmt.Sprintf("the bound can come from %s", b.String()))
+			}
+		}
+	}
+	limitOf(limit, 0)
+	sort.Strings(bad)
+	return bad
+}
+
+// phiEdgeNil: v flows only into phis through edges whose predecessor satisfies pred.
+func phiEdgeNil(v ssa.Value, pred func(*ssa.BasicBlock) bool) bool {
+	refs := ssau.Referrers(v)
+	n := 0
+	for _, r := range refs {
+		p, ok := r.(*ssa.Phi)
+		if !ok {
+			continue
+		}
+		for i, e := range p.Edges {
+			if e == v {
+				n++
+				if !pred(p.Block().Preds[i]) {
+					return false
+				}
+			}
+		}
+	}
+	return n > 0
 }
